@@ -4,7 +4,8 @@ import NeoFS.Generated.Consts
 
 Modelled branch by branch: `_deploy` (fresh deployment: count, ring slots, current id, epoch),
 `NewEpoch` (witness, epoch guard, `filterNetmap`, `fillNetmap`, ring advance, `dropNetmap(epoch-count)`),
-`UpdateSnapshotCount` (guards, grow / shrink move loops, slot deletion loop, node-list drop loop),
+`UpdateSnapshotCount` (guards incl. the upper bound 256, grow / shrink move loops, slot deletion loop,
+node-list drop loop),
 `moveSnapshot`, `dropNetmap`, `fourBytesBE`, `Snapshot`, `SnapshotByEpoch`, `ListNodesEpoch`, `Netmap`,
 `Epoch`, and — only as far as they decide *what a tick publishes* — `AddPeerIR`, `AddNode`, `DeleteNode`.
 
@@ -145,6 +146,7 @@ def dropEpochs (cur old new : Nat) : List Int :=
 def updateSnapshotCount (s : State) (env : Env) (k : Int) : Option State :=
   if !env.alphabet then none                                   -- common.CheckAlphabetWitness
   else if k ≤ 0 then none                                      -- "count must be positive"
+  else if k > 256 then none                                    -- "count must not exceed 256" (one-byte slot index)
   else
     let new := k.toNat
     let old := s.count
@@ -242,6 +244,7 @@ def branch (s : State) (env : Env) : Op → String
          (if e = (s.cur : Int) + 1 then "" else ",tick.jump")
   | .updateSnapshotCount k =>
     if !env.alphabet then "resize.nowitness" else if k ≤ 0 then "resize.nonpositive"
+    else if k > 256 then "resize.above256"
     else if s.count = k.toNat then "resize.same"
     else
       let kind := if s.count < k.toNat then "resize.grow" else if s.id < k.toNat then "resize.shrinkK2" else "resize.shrinkK1"
